@@ -11,8 +11,15 @@ function nameOf(x) {
 }
 // abstract values: numbers 1 / 2, or (kind strchar: the key is a character position of a String object) the characters "a" / "b"
 function CH() { return CFG.kind === "strchar"; }
-function V(x) { return x === "v1" ? (CH() ? "a" : 1) : x === "v2" ? (CH() ? "b" : 2) : undefined; }
-function vname(v) { return v === (CH() ? "a" : 1) ? "v1" : v === (CH() ? "b" : 2) ? "v2" : v === undefined ? "u" : v === "gv" ? "gv" : "?" + String(v); }
+// the two abstract values: 1 / 2, or (key mappings "strz" / "strn") two values that === and SameValue tell apart differently:
+// +0 / -0 are === but not the same value, NaN is the same value as itself but not === (ValidateAndApplyPropertyDescriptor uses SameValue)
+function VZ() { return CFG.keymap === "strz" ? [0, -0] : CFG.keymap === "strn" ? [NaN, 0] : null; }
+function V(x) { var z = VZ(); if (z) return x === "v1" ? z[0] : x === "v2" ? z[1] : undefined; return x === "v1" ? (CH() ? "a" : 1) : x === "v2" ? (CH() ? "b" : 2) : undefined; }
+function vname(v) {
+  var z = VZ();
+  if (z) return Object.is(v, z[0]) ? "v1" : Object.is(v, z[1]) ? "v2" : v === undefined ? "u" : v === "gv" ? "gv" : "?" + String(v) + (Object.is(v, -0) ? "(-0)" : "");
+  return v === (CH() ? "a" : 1) ? "v1" : v === (CH() ? "b" : 2) ? "v2" : v === undefined ? "u" : v === "gv" ? "gv" : "?" + String(v);
+}
 function B(x) { return x === "T"; }
 function tf(b) { return b ? "T" : "F"; }
 var KINDS = {
@@ -74,7 +81,7 @@ function mkKeys() {
     if (k === "y" || k === "z") c = Symbol(k);
     else if (k === "i0") c = "0"; else if (k === "i1") c = "1"; else if (k === "i2") c = "2";
     else if (k === "k") {
-      c = m === "str" ? "vk_a" : m === "sym" ? Symbol("k") : m === "idx" ? "0" : m === "idx7" ? "7" : m === "num7" ? 7 :
+      c = m === "str" || m === "strz" || m === "strn" ? "vk_a" : m === "sym" ? Symbol("k") : m === "idx" ? "0" : m === "idx7" ? "7" : m === "num7" ? 7 :
           m === "big" ? "4294967295" : m === "neg0" ? "-0" : m === "frac" ? "1.5" : m === "wk" ? Symbol.toStringTag :
           m === "tmpl" ? TMPLKEY[CFG.kind] :
           m === "long" ? "vk_a_rather_long_property_name_to_defeat_small_string_paths" : m === "uni" ? "ключ" : undefined;
